@@ -1,9 +1,12 @@
 use crate::Prop;
 pub mod c01;
+pub mod c02;
+pub mod evalutil;
 
 pub fn lookup(id: &str) -> Option<&'static dyn Prop> {
     Some(match id {
         "C01" => &c01::C01,
+        "C02" => &c02::C02,
         _ => return None,
     })
 }
